@@ -182,7 +182,11 @@ async def worker_serve(
 
             await lifespan.wait_for_shutdown()
             lifespan_task.cancel()
-            await lifespan_task
+            # An app still running after the shutdown is cancelled here,
+            # which is not an error to raise to the caller.
+            await asyncio.wait([lifespan_task])
+            if not lifespan_task.cancelled():
+                lifespan_task.result()
 
 
 def asyncio_worker(
